@@ -87,7 +87,8 @@ let handle (f : string list) : string =
           Printf.sprintf "sel\t%s\t%d\t%d" (idxs s) (int_of_nat (selected_count ns s))
             (int_of_nat (platform_skipped c ns g)))
   | ["selectspec"; nodes; cfg] ->
-    (* the variant repaired for C12-F1: roots of the property's reading *)
+    (* the same traversal started from the roots of the property's reading: equal to `select` since the repair of
+       C12-F1 (C12_selection_equals_spec_selection); the check compares the two *)
     let (ns, g) = parse_nodes nodes in
     with_cfg cfg (fun c ->
         match select_for_build_spec c ns g with
